@@ -32,7 +32,8 @@ def run_file_rename(cfg: FileRenameConfig) -> int:
     }
     for zpath in c.get_all_zfiles(cfg.zettel_dir):
         # newline="" keeps every line ending (\r\n, \r) exactly as it is.
-        with zpath.open(newline="") as zfile:
+        # Bytes that are not valid UTF-8 are carried through unchanged.
+        with zpath.open(newline="", errors="surrogateescape") as zfile:
             zcontents = zfile.read()
         if not any(src_str in zcontents for src_str in link_map):
             _LOGGER.debug("Skipping file that has no links", file=str(zpath))
@@ -42,6 +43,8 @@ def run_file_rename(cfg: FileRenameConfig) -> int:
         _LOGGER.info("Replacing links found in file", file=str(zpath))
         for old_link, new_link in link_map.items():
             new_zcontents = new_zcontents.replace(old_link, new_link)
-        with zpath.open("w", newline="") as zfile:
+        with zpath.open(
+            "w", newline="", errors="surrogateescape"
+        ) as zfile:
             zfile.write(new_zcontents)
     return 0
